@@ -20,6 +20,97 @@ def load_ctx(profile="dev"):
     return fx, cg
 
 
+def struct_hash(n):
+    """structural hash of a HIR subtree ignoring spans, ids and interned type indices"""
+    import hashlib
+    h = hashlib.sha1()
+
+    def rec(x):
+        if isinstance(x, dict):
+            for k in sorted(x):
+                if k in ("sp", "span", "id", "ty", "aty", "did", "inst_did", "lid", "to", "ret_ty", "param_tys"):
+                    continue
+                h.update(k.encode())
+                rec(x[k])
+        elif isinstance(x, list):
+            h.update(b"[")
+            for y in x:
+                rec(y)
+            h.update(b"]")
+        else:
+            h.update(repr(x).encode())
+    rec(n)
+    return h.hexdigest()
+
+
+def thorough(ck, mod, pid, fx, cg):
+    """Thorough tier: configuration sweep (release profile), profile-dependent code diff,
+    clippy cross-reference, checker self-validation on seeded variants."""
+    import subprocess
+    t0 = time.time()
+    # (a) release-profile extraction: same rules, verdicts must agree; bodies must be structurally identical
+    try:
+        path2 = F.extract(profile="release", target_name="target")
+        fx2 = F.Facts(path2)
+        cg2 = CallGraph(fx2)
+        ck2 = Check(pid, "thorough", ck.seed, level=ck.level)
+        import engine.props.c02 as _c02
+        import engine.props.c05_vm as _vm
+        import engine.props.layout as _lay
+        _c02._cache.clear(); _vm._cache.clear(); _lay._cache.clear()
+        mod.run(ck2, fx2, cg2, "quick")
+        _c02._cache.clear(); _vm._cache.clear(); _lay._cache.clear()
+        bad1 = {"%s|%s" % (o["rule"], o["key"]) for o in ck.obligs if not o["ok"]}
+        bad2 = {"%s|%s" % (o["rule"], o["key"]) for o in ck2.obligs if not o["ok"]}
+        for k in sorted(bad2 - bad1):
+            o = next(o for o in ck2.obligs if "%s|%s" % (o["rule"], o["key"]) == k)
+            ck.obligs.append(dict(o, detail="[release profile] " + o["detail"]))
+        h1 = {b["path"]: struct_hash(b["value"]) for b in fx.hir}
+        h2 = {b["path"]: struct_hash(b["value"]) for b in fx2.hir}
+        differ = sorted(p for p in h1 if p in h2 and h1[p] != h2[p])
+        only = sorted(set(h1) ^ set(h2))
+        ck.ob("T.profile", "source is identical under dev and release cfgs", not differ and not only, "",
+              "bodies that differ between the dev and release configurations: %s; bodies present in only one: %s" % (differ[:5] or "none", only[:5] or "none"))
+        ck.extra["configurations"] = [{"profile": "dev", "overflow_checks": fx.meta["overflow_checks"], "obligations": len(ck.obligs)},
+                                      {"profile": "release", "overflow_checks": fx2.meta["overflow_checks"], "obligations": len(ck2.obligs), "violations": len(bad2)}]
+    except F.CannotAnalyse as e:
+        ck.note("thorough: release-profile extraction failed: %s" % str(e)[:200])
+    # (b) clippy cross-reference (reported, never a verdict)
+    lints = {"C08": ["clippy::unused_io_amount"], "C11": ["clippy::iter_over_hash_type"], "C10": ["clippy::let_underscore_must_use", "clippy::unused_result_ok"],
+             "C09": ["clippy::arithmetic_side_effects"], "C03": ["clippy::cast_possible_truncation"]}.get(pid)
+    if lints:
+        try:
+            env = dict(os.environ, CARGO_TARGET_DIR=os.path.join(F.CACHE, "target-clippy"), CARGO_NET_OFFLINE="true")
+            args = ["cargo", "+nightly", "clippy", "--offline", "--locked", "--message-format=short", "--", "-A", "clippy::all", "-A", "unused", "-A", "warnings"]
+            for l in lints:
+                args += ["-W", l]
+            r = subprocess.run(args, cwd=F.REPO, env=env, stdout=subprocess.PIPE, stderr=subprocess.STDOUT, text=True, timeout=600)
+            counts = {}
+            for line in r.stdout.splitlines():
+                for l in lints:
+                    pass
+                if ": warning:" in line and line.startswith("src/"):
+                    f = line.split(":", 1)[0]
+                    counts[f] = counts.get(f, 0) + 1
+            ck.extra["clippy_cross_reference"] = {"lints": lints, "warnings_by_file": counts, "note": "cross-reference only; a disagreement with the own rule is reported here, not as a violation"}
+        except Exception as e:  # noqa
+            ck.note("thorough: clippy cross-reference not available: %s" % str(e)[:120])
+    # (c) checker self-validation on seeded variants (scratch copies outside /repo and /verif)
+    if not os.environ.get("FML_SCRATCH"):
+        try:
+            r = subprocess.run([os.path.join(F.VERIF, "selftest", "run_mutants.py"), "--props", pid], cwd=F.VERIF, stdout=subprocess.PIPE,
+                               stderr=subprocess.STDOUT, text=True, timeout=1500)
+            lines = [l for l in r.stdout.splitlines() if l[:1] == "M" or "as expected" in l]
+            rb = subprocess.run([os.path.join(F.VERIF, "selftest", "run_mutants.py"), "--props", pid, "--benign"], cwd=F.VERIF, stdout=subprocess.PIPE,
+                                stderr=subprocess.STDOUT, text=True, timeout=900)
+            lb = [l for l in rb.stdout.splitlines() if l[:1] == "B" or "as expected" in l]
+            ck.extra["self_validation"] = {"seeded_bad_variants": lines, "benign_variants": lb,
+                                           "note": "each variant is applied to a scratch copy (mktemp, removed afterwards); CAUGHT = this property's check exits 1 on the variant; SKIP = /repo no longer matches the seed's base"}
+        except Exception as e:  # noqa
+            ck.note("thorough: self-validation not run: %s" % str(e)[:120])
+    ck.extra["thorough_wall_s"] = round(time.time() - t0, 1)
+
+
 def main(argv=None):
     ap = argparse.ArgumentParser()
     ap.add_argument("pid")
@@ -43,6 +134,8 @@ def main(argv=None):
                          "overflow_checks": fx.meta["overflow_checks"],
                          "hir_bodies": len(fx.hir), "mir_bodies": len(fx.mir)}
     mod.run(ck, fx, cg, tier)
+    if tier == "thorough":
+        thorough(ck, mod, pid, fx, cg)
     if a.replay:
         try:
             want = json.load(open(a.replay))["key"]
